@@ -48,10 +48,10 @@ theorem savePairs_cons_length (F : FloatOps α) (k v : Value α) (r : Pairs α) 
 
 /-- the pre-pass over a number text -/
 theorem pre_numText (F : FloatOps α) (mb : MbLen) (t : List Byte) (w : Value α) (hn : NumText F t w)
-    (fuel : Nat) (top isMap idx : Bool) (d : Byte) (rest : List Byte) (size : Nat) (zs : List Nat)
-    (hd : delimOf isMap idx = d) :
-    pre mb (fuel + 1) top isMap idx (t ++ d :: rest) size zs =
-      pre mb fuel top isMap (idxNext isMap idx) rest (size + 1) zs := by
+    (fuel nest : Nat) (top isMap idx : Bool) (d : Byte) (rest : List Byte) (size : Nat) (zs : List Nat)
+    (hd : delimOf isMap idx = d) (hk : NestOK top nest) :
+    preD mb (fuel + 1) nest top isMap idx (t ++ d :: rest) size zs =
+      preD mb fuel nest top isMap (idxNext isMap idx) rest (size + 1) zs := by
   obtain ⟨c, s, hcs, hstart⟩ := hn.start
   have hdc := delimOf_cases isMap idx
   rw [hd] at hdc
@@ -60,103 +60,117 @@ theorem pre_numText (F : FloatOps α) (mb : MbLen) (t : List Byte) (w : Value α
     have := hn.chars b (by rw [hcs]; simp [hb])
     rcases hdc with rfl | rfl <;> omega
   rw [hcs, List.cons_append]
-  exact pre_num mb fuel top isMap idx size zs d hd c s rest hstart hch
+  exact pre_num mb fuel nest top isMap idx size zs d hd c s rest hstart hch hk
 
+/-
+The pre-pass AS CODED (with the nesting test) over a saved text.  `nest` is the level of the container whose elements
+are being counted; an element that is itself a container sits at level `nest + 1`, which is exactly what
+`svalue_save_size` tested when it computed the size of that element with `save_svalue_depth = nest` on entry:
+the hypothesis `(saveSize F nest v).isSome` — "the save did not raise `nested too deep`".
+-/
 mutual
 theorem pre_elem (F : FloatOps α) (mb : MbLen) : (v : Value α) → Savable F v →
-    ∀ (fuel : Nat) (top isMap idx : Bool) (d : Byte) (rest : List Byte) (size : Nat) (zs : List Nat),
-      delimOf isMap idx = d → (save F v).length ≤ fuel →
-      pre mb (fuel + 1) top isMap idx (save F v ++ d :: rest) size zs =
-        pre mb fuel top isMap (idxNext isMap idx) rest (size + 1) (zs ++ tbl v)
+    ∀ (fuel nest : Nat) (top isMap idx : Bool) (d : Byte) (rest : List Byte) (size : Nat) (zs : List Nat),
+      delimOf isMap idx = d → (save F v).length ≤ fuel → NestOK top nest → (saveSize F nest v).isSome = true →
+      preD mb (fuel + 1) nest top isMap idx (save F v ++ d :: rest) size zs =
+        preD mb fuel nest top isMap (idxNext isMap idx) rest (size + 1) (zs ++ tbl v)
   | .int n, hs => by
-    intro fuel top isMap idx d rest size zs hd _
+    intro fuel nest top isMap idx d rest size zs hd _ hk _
     have hn := numText_int F n hs.int_inv.1 hs.int_inv.2
-    rw [save, pre_numText F mb _ _ hn fuel top isMap idx d rest size zs hd]
+    rw [save, pre_numText F mb _ _ hn fuel nest top isMap idx d rest size zs hd hk]
     simp [tbl]
   | .real x, hs => by
-    intro fuel top isMap idx d rest size zs hd _
+    intro fuel nest top isMap idx d rest size zs hd _ hk _
     have hn := numText_real F x hs.real_inv
-    rw [save, pre_numText F mb _ _ hn fuel top isMap idx d rest size zs hd]
+    rw [save, pre_numText F mb _ _ hn fuel nest top isMap idx d rest size zs hd hk]
     simp [tbl]
   | .str s, hs => by
-    intro fuel top isMap idx d rest size zs hd _
-    rw [save_str_append, pre_str mb fuel top isMap idx size zs d hd s rest]
+    intro fuel nest top isMap idx d rest size zs hd _ hk _
+    rw [save_str_append, pre_str mb fuel nest top isMap idx size zs d hd s rest hk]
     simp [tbl]
   | .obj, _ => by
-    intro fuel top isMap idx d rest size zs hd _
-    rw [save, List.nil_append, pre_empty mb fuel top isMap idx size zs d hd rest]
+    intro fuel nest top isMap idx d rest size zs hd _ hk _
+    rw [save, List.nil_append, pre_empty mb fuel nest top isMap idx size zs d hd rest hk]
     simp [tbl]
   | .arr xs, hs => by
-    intro fuel top isMap idx d rest size zs hd hf
+    intro fuel nest top isMap idx d rest size zs hd hf hk hz
     rw [save_arr_length] at hf
-    have h := pre_vals F mb xs hs.arr_inv.1 fuel false false 125 (d :: rest) 0 [] (Or.inl rfl) (by omega)
+    obtain ⟨hlim, hzs⟩ := saveSize_arr_some hz
+    have h := pre_vals F mb xs hs.arr_inv.1 fuel (nest + 1) false false 125 (d :: rest) 0 [] (Or.inl rfl) (by omega)
+      (Or.inr hlim) hzs
     rw [save_arr_append,
-      pre_nested mb fuel top isMap idx size zs d hd 123 (Or.inl rfl) _ rest (0 + xs.length) ([] ++ tblVals xs)
-        (by simpa using h)]
+      pre_nested mb fuel nest top isMap idx size zs d hd 123 (Or.inl rfl) _ rest (0 + xs.length) ([] ++ tblVals xs)
+        (by simpa using h) hk]
     simp [tbl]
   | .cls xs, hs => by
-    intro fuel top isMap idx d rest size zs hd hf
+    intro fuel nest top isMap idx d rest size zs hd hf hk hz
     rw [save_cls_length] at hf
-    have h := pre_vals F mb xs hs.cls_inv fuel false false 47 (d :: rest) 0 [] (Or.inr rfl) (by omega)
+    obtain ⟨hlim, hzs⟩ := saveSize_cls_some hz
+    have h := pre_vals F mb xs hs.cls_inv fuel (nest + 1) false false 47 (d :: rest) 0 [] (Or.inr rfl) (by omega)
+      (Or.inr hlim) hzs
     rw [save_cls_append,
-      pre_nested mb fuel top isMap idx size zs d hd 47 (Or.inr (Or.inr rfl)) _ rest (0 + xs.length)
-        ([] ++ tblVals xs) (by simpa using h)]
+      pre_nested mb fuel nest top isMap idx size zs d hd 47 (Or.inr (Or.inr rfl)) _ rest (0 + xs.length)
+        ([] ++ tblVals xs) (by simpa using h) hk]
     simp [tbl]
   | .map ps, hs => by
-    intro fuel top isMap idx d rest size zs hd hf
+    intro fuel nest top isMap idx d rest size zs hd hf hk hz
     rw [save_map_length] at hf
-    have h := pre_pairs F mb ps hs.map_inv.1 fuel false (d :: rest) 0 [] (by omega)
+    obtain ⟨hlim, hzs⟩ := saveSize_map_some hz
+    have h := pre_pairs F mb ps hs.map_inv.1 fuel (nest + 1) false (d :: rest) 0 [] (by omega) (Or.inr hlim) hzs
     rw [save_map_append,
-      pre_nested mb fuel top isMap idx size zs d hd 91 (Or.inr (Or.inl rfl)) _ rest (0 + 2 * ps.len)
-        ([] ++ tblPairs ps) (by simpa using h)]
+      pre_nested mb fuel nest top isMap idx size zs d hd 91 (Or.inr (Or.inl rfl)) _ rest (0 + 2 * ps.len)
+        ([] ++ tblPairs ps) (by simpa using h) hk]
     simp [tbl]
 theorem pre_vals (F : FloatOps α) (mb : MbLen) : (xs : Vals α) → SavableVals F xs →
-    ∀ (fuel : Nat) (top idx : Bool) (c : Byte) (rest : List Byte) (size : Nat) (zs : List Nat),
-      (c = 125 ∨ c = 47) → (saveElems F xs).length + 1 ≤ fuel →
-      pre mb fuel top false idx (saveElems F xs ++ c :: 41 :: rest) size zs =
+    ∀ (fuel nest : Nat) (top idx : Bool) (c : Byte) (rest : List Byte) (size : Nat) (zs : List Nat),
+      (c = 125 ∨ c = 47) → (saveElems F xs).length + 1 ≤ fuel → NestOK top nest →
+      (sizeElems F nest xs).isSome = true →
+      preD mb fuel nest top false idx (saveElems F xs ++ c :: 41 :: rest) size zs =
         some (rest, size + xs.length, zs ++ tblVals xs)
   | .nil, _ => by
-    intro fuel top idx c rest size zs hc hf
+    intro fuel nest top idx c rest size zs hc hf hk _
     cases fuel with
     | zero => omega
     | succ f =>
-      rw [saveElems, List.nil_append, pre_close_vals mb f top idx size zs c hc rest]
+      rw [saveElems, List.nil_append, pre_close_vals mb f nest top idx size zs c hc rest hk]
       simp [Vals.length, tblVals]
   | .cons v r, hs => by
-    intro fuel top idx c rest size zs hc hf
+    intro fuel nest top idx c rest size zs hc hf hk hz
     rw [saveElems_cons_length] at hf
+    obtain ⟨hzv, hzr⟩ := sizeElems_cons_some hz
     cases fuel with
     | zero => omega
     | succ f =>
       rw [saveElems_cons_append,
-        pre_elem F mb v hs.cons_inv.1 f top false idx 44 _ size zs (by simp [delimOf]) (by omega)]
+        pre_elem F mb v hs.cons_inv.1 f nest top false idx 44 _ size zs (by simp [delimOf]) (by omega) hk hzv]
       have hi : idxNext false idx = idx := by simp [idxNext]
-      rw [hi, pre_vals F mb r hs.cons_inv.2 f top idx c rest (size + 1) (zs ++ tbl v) hc (by omega)]
+      rw [hi, pre_vals F mb r hs.cons_inv.2 f nest top idx c rest (size + 1) (zs ++ tbl v) hc (by omega) hk hzr]
       simp [Vals.length, tblVals]; omega
 theorem pre_pairs (F : FloatOps α) (mb : MbLen) : (ps : Pairs α) → SavablePairs F ps →
-    ∀ (fuel : Nat) (top : Bool) (rest : List Byte) (size : Nat) (zs : List Nat),
-      (savePairs F ps).length + 1 ≤ fuel →
-      pre mb fuel top true false (savePairs F ps ++ 93 :: 41 :: rest) size zs =
+    ∀ (fuel nest : Nat) (top : Bool) (rest : List Byte) (size : Nat) (zs : List Nat),
+      (savePairs F ps).length + 1 ≤ fuel → NestOK top nest → (sizePairs F nest ps).isSome = true →
+      preD mb fuel nest top true false (savePairs F ps ++ 93 :: 41 :: rest) size zs =
         some (rest, size + 2 * ps.len, zs ++ tblPairs ps)
   | .nil, _ => by
-    intro fuel top rest size zs hf
+    intro fuel nest top rest size zs hf hk _
     cases fuel with
     | zero => omega
     | succ f =>
-      rw [savePairs, List.nil_append, pre_close_map mb f top false size zs rest]
+      rw [savePairs, List.nil_append, pre_close_map mb f nest top false size zs rest hk]
       simp [Pairs.len, tblPairs]
   | .cons k v r, hs => by
-    intro fuel top rest size zs hf
+    intro fuel nest top rest size zs hf hk hz
     rw [savePairs_cons_length] at hf
+    obtain ⟨hzk, hzv, hzr⟩ := sizePairs_cons_some hz
     match fuel, hf with
     | f + 2, hf =>
       rw [savePairs_cons_append,
-        pre_elem F mb k hs.cons_inv.1 (f + 1) top true false 58 _ size zs (by simp [delimOf]) (by omega)]
+        pre_elem F mb k hs.cons_inv.1 (f + 1) nest top true false 58 _ size zs (by simp [delimOf]) (by omega) hk hzk]
       have hi : idxNext true false = true := by simp [idxNext]
-      rw [hi, pre_elem F mb v hs.cons_inv.2.1 f top true true 44 _ (size + 1) (zs ++ tbl k)
-        (by simp [delimOf]) (by omega)]
+      rw [hi, pre_elem F mb v hs.cons_inv.2.1 f nest top true true 44 _ (size + 1) (zs ++ tbl k)
+        (by simp [delimOf]) (by omega) hk hzv]
       have hi2 : idxNext true true = false := by simp [idxNext]
-      rw [hi2, pre_pairs F mb r hs.cons_inv.2.2 f top rest (size + 1 + 1) (zs ++ tbl k ++ tbl v) (by omega)]
+      rw [hi2, pre_pairs F mb r hs.cons_inv.2.2 f nest top rest (size + 1 + 1) (zs ++ tbl k ++ tbl v) (by omega) hk hzr]
       simp [Pairs.len, tblPairs]; omega
 end
 
@@ -220,8 +234,8 @@ theorem rd_item (F : FloatOps α) : (v : Value α) → Savable F v →
     rw [save_map_length] at hf
     match fuel, hf with
     | f + 1, hf =>
-      have ih := rd_pairs F ps hs.map_inv.1 hs.map_inv.2.1 f 41 (d :: rest) more .nil (by omega)
-        (by simpa [Pairs.keys] using hs.map_inv.2.2)
+      have ih := rd_pairs F ps hs.map_inv.1 hs.map_inv.2 f 41 (d :: rest) more .nil (by omega)
+        (by intro a ha; simp [Pairs.keys] at ha)
       rw [save_map_append]
       cases ps with
       | nil =>
@@ -256,10 +270,10 @@ theorem rd_vals (F : FloatOps α) : (xs : Vals α) → SavableVals F xs →
       refine ⟨.cons w ys, ?_, by rw [eraseVals]; exact EquivVals.cons _ _ _ _ ew es⟩
       rw [saveElems_cons_append, Vals.length, tblVals, List.append_assoc,
         rdElems_step F f _ _ w _ _ hw r.length acc g, hys, Vals.snoc_app]
-theorem rd_pairs (F : FloatOps α) : (ps : Pairs α) → SavablePairs F ps → (∀ k ∈ ps.keys, isReal k = false) →
+theorem rd_pairs (F : FloatOps α) : (ps : Pairs α) → SavablePairs F ps → KeysDistinct F ps.keys →
     ∀ (fuel : Nat) (c : Byte) (rest : List Byte) (more : List Nat) (acc : Pairs α),
       (savePairs F ps).length + 1 ≤ fuel →
-      ((acc.keys.filterMap keyTag) ++ (ps.keys.filterMap keyTag)).Nodup →
+      (∀ a ∈ acc.keys, ∀ k ∈ ps.keys, ∀ k', Equiv F (erase k) k' → sameKey F a k' = false) →
       ∃ qs, rdMap F fuel (savePairs F ps ++ 93 :: c :: rest) (tblPairs ps ++ more) acc =
           .ok ⟨acc.app qs, some rest, more⟩ ∧ EquivPairs F (erasePairs ps) qs
   | .nil, _, _ => by
@@ -268,9 +282,14 @@ theorem rd_pairs (F : FloatOps α) : (ps : Pairs α) → SavablePairs F ps → (
     | f + 1, hf =>
       refine ⟨.nil, ?_, by rw [erasePairs]; exact EquivPairs.nil⟩
       simp [savePairs, tblPairs, rdMap_done, Pairs.app_nil]
-  | .cons k v r, hs, hreal => by
-    intro fuel c rest more acc hf hnd
+  | .cons k v r, hs, hkd => by
+    intro fuel c rest more acc hf hinv
     rw [savePairs_cons_length] at hf
+    have hkd' : (∀ y ∈ r.keys, ∀ x' y', Equiv F (erase k) x' → Equiv F (erase y) y' → sameKey F x' y' = false) ∧
+        KeysDistinct F r.keys := by
+      have : (Pairs.cons k v r).keys = k :: r.keys := by simp [Pairs.keys]
+      rw [this] at hkd
+      exact List.pairwise_cons.1 hkd
     match fuel, hf with
     | f + 1, hf =>
       obtain ⟨k', hk', ek⟩ := rd_item F k hs.cons_inv.1 f 58
@@ -278,30 +297,18 @@ theorem rd_pairs (F : FloatOps α) : (ps : Pairs α) → SavablePairs F ps → (
         (Or.inr rfl) (by omega)
       obtain ⟨w', hw', ew⟩ := rd_item F v hs.cons_inv.2.1 f 44 (savePairs F r ++ 93 :: c :: rest)
         (tblPairs r ++ more) (Or.inl rfl) (by omega)
-      have hkt : keyTag k' = keyTag k := by rw [← ek.keyTag_eq, keyTag_erase]
-      have hkr : isReal k' = false := by
-        rw [← ek.isReal_eq, isReal_erase]; exact hreal k (by simp [Pairs.keys])
-      have hfresh : ∀ a ∈ acc.keys, sameKey F a k' = false := by
-        intro a ha
-        cases hsk : sameKey F a k' with
-        | false => rfl
-        | true =>
-          obtain ⟨t, hta, htk⟩ := sameKey_tag F a k' hsk hkr
-          rw [hkt] at htk
-          have h1 : t ∈ acc.keys.filterMap keyTag := List.mem_filterMap.2 ⟨a, ha, hta⟩
-          have h2 : t ∈ (Pairs.cons k v r).keys.filterMap keyTag :=
-            List.mem_filterMap.2 ⟨k, by simp [Pairs.keys], htk⟩
-          exact absurd rfl ((List.nodup_append.1 hnd).2.2 t h1 t h2)
-      have hnd' : (((acc.snoc k' w').keys.filterMap keyTag) ++ (r.keys.filterMap keyTag)).Nodup := by
-        have e : ((acc.snoc k' w').keys.filterMap keyTag) ++ (r.keys.filterMap keyTag) =
-            (acc.keys.filterMap keyTag) ++ ((Pairs.cons k v r).keys.filterMap keyTag) := by
-          rw [Pairs.keys_snoc, List.filterMap_append, List.append_assoc]
-          congr 1
-          simp only [Pairs.keys, List.filterMap_cons, hkt, List.filterMap_nil]
-          cases keyTag k <;> rfl
-        rw [e]; exact hnd
-      obtain ⟨qs, hqs, es⟩ := rd_pairs F r hs.cons_inv.2.2
-        (fun x hx => hreal x (by simp [Pairs.keys, hx])) f c rest more (acc.snoc k' w') (by omega) hnd'
+      -- the duplicate test of restore_mapping finds no earlier key equal to this one
+      have hfresh : ∀ a ∈ acc.keys, sameKey F a k' = false :=
+        fun a ha => hinv a ha k (by simp [Pairs.keys]) k' ek
+      have hinv' : ∀ a ∈ (acc.snoc k' w').keys, ∀ y ∈ r.keys, ∀ y', Equiv F (erase y) y' → sameKey F a y' = false := by
+        intro a ha y hy y' ey
+        rw [Pairs.keys_snoc] at ha
+        rcases List.mem_append.1 ha with ha | ha
+        · exact hinv a ha y (by simp [Pairs.keys, hy]) y' ey
+        · simp only [List.mem_singleton] at ha
+          subst ha
+          exact hkd'.1 y hy a y' ek ey
+      obtain ⟨qs, hqs, es⟩ := rd_pairs F r hs.cons_inv.2.2 hkd'.2 f c rest more (acc.snoc k' w') (by omega) hinv'
       refine ⟨.cons k' w' qs, ?_, by rw [erasePairs]; exact EquivPairs.cons _ _ _ _ _ _ ek ew es⟩
       rw [savePairs_cons_append, tblPairs, List.append_assoc, List.append_assoc,
         rdMap_step F f _ _ k' _ _ hk' w' _ _ hw' acc, insertKV_snoc F acc k' w' hfresh, hqs,
@@ -322,7 +329,8 @@ theorem restoreSvalue_numText (F : FloatOps α) (mb : MbLen) (t : List Byte) (w 
   rw [hcs]
   simp [restoreSvalue, h1, h2, hstart, hy]
 
-theorem restoreSvalue_save (F : FloatOps α) (mb : MbLen) (v : Value α) (hs : Savable F v) :
+theorem restoreSvalue_save (F : FloatOps α) (mb : MbLen) (v : Value α) (hs : Savable F v)
+    (hz : (saveSize F 0 v).isSome = true) :
     ∃ v', restoreSvalue F mb (save F v) = .ok v' ∧ Equiv F (erase v) v' := by
   cases v with
   | int n =>
@@ -338,8 +346,8 @@ theorem restoreSvalue_save (F : FloatOps α) (mb : MbLen) (v : Value α) (hs : S
   | obj =>
     exact ⟨.int 0, by simp [save, restoreSvalue], by rw [erase]; exact Equiv.int 0⟩
   | arr xs =>
-    have hp := pre_vals F mb xs hs.arr_inv.1 ((saveElems F xs).length + 4) true false 125 [] 0 []
-      (Or.inl rfl) (by omega)
+    have hp := pre_vals F mb xs hs.arr_inv.1 ((saveElems F xs).length + 4) 1 true false 125 [] 0 []
+      (Or.inl rfl) (by omega) (Or.inl rfl) (saveSize_arr_some hz).2
     obtain ⟨ys, hys, he⟩ := rd_vals F xs hs.arr_inv.1 ((saveElems F xs).length + 4) 125 41 [] [] .nil
       .array (by omega)
     refine ⟨.arr ys, ?_, by rw [erase]; exact Equiv.arr _ _ he⟩
@@ -347,17 +355,18 @@ theorem restoreSvalue_save (F : FloatOps α) (mb : MbLen) (v : Value α) (hs : S
     simp only [List.nil_append, Nat.zero_add, List.append_nil] at hp hys
     simp [save, restoreSvalue, restoreContainer, hp, hys, Nat.not_lt.2 hlen, Vals.app]
   | cls xs =>
-    have hp := pre_vals F mb xs hs.cls_inv ((saveElems F xs).length + 4) true false 47 [] 0 []
-      (Or.inr rfl) (by omega)
+    have hp := pre_vals F mb xs hs.cls_inv ((saveElems F xs).length + 4) 1 true false 47 [] 0 []
+      (Or.inr rfl) (by omega) (Or.inl rfl) (saveSize_cls_some hz).2
     obtain ⟨ys, hys, he⟩ := rd_vals F xs hs.cls_inv ((saveElems F xs).length + 4) 47 41 [] [] .nil
       .cls (by omega)
     refine ⟨.cls ys, ?_, by rw [erase]; exact Equiv.cls _ _ he⟩
     simp only [List.nil_append, Nat.zero_add, List.append_nil] at hp hys
     simp [save, restoreSvalue, restoreContainer, hp, hys, Vals.app]
   | map ps =>
-    have hp := pre_pairs F mb ps hs.map_inv.1 ((savePairs F ps).length + 4) true [] 0 [] (by omega)
-    have ih := rd_pairs F ps hs.map_inv.1 hs.map_inv.2.1 ((savePairs F ps).length + 4) 41 [] [] .nil
-      (by omega) (by simpa [Pairs.keys] using hs.map_inv.2.2)
+    have hp := pre_pairs F mb ps hs.map_inv.1 ((savePairs F ps).length + 4) 1 true [] 0 [] (by omega) (Or.inl rfl)
+      (saveSize_map_some hz).2
+    have ih := rd_pairs F ps hs.map_inv.1 hs.map_inv.2 ((savePairs F ps).length + 4) 41 [] [] .nil
+      (by omega) (by intro a ha; simp [Pairs.keys] at ha)
     simp only [List.nil_append, Nat.zero_add, List.append_nil] at hp ih
     cases ps with
     | nil =>
@@ -370,21 +379,28 @@ theorem restoreSvalue_save (F : FloatOps α) (mb : MbLen) (v : Value α) (hs : S
       simp [save, restoreSvalue, restoreContainer, hp, hqs, Pairs.len, Pairs.app]
 
 /-- the round trip on the inductive form of the domain -/
-theorem roundtrip_ind (F : FloatOps α) (mb : MbLen) (v : Value α) (hs : Savable F v) :
+theorem roundtrip_ind (F : FloatOps α) (mb : MbLen) (v : Value α) (hs : Savable F v)
+    (hz : (saveSize F 0 v).isSome = true) :
     ∃ v', restoreVariable F mb (save F v) = RvOut.value v' ∧ Equiv F (erase v) v' := by
-  obtain ⟨v', h, he⟩ := restoreSvalue_save F mb v hs
+  obtain ⟨v', h, he⟩ := restoreSvalue_save F mb v hs hz
   refine ⟨v', ?_, he⟩
   unfold restoreVariable
   rw [cstr_eq_self _ (save_nz F v hs), h]
 
 /-- **Round trip.**  For every value of the domain `savable` (64-bit integers, strings without NUL, arrays of at
-    most MaxArraySize elements, mappings without float keys and with distinct integer / string / object keys; any
-    nesting) whose floats satisfy the float contract, restoring the text that `save` wrote yields a value of the
-    same shape: equal integers and strings, floats with the same saved text, object references as 0. -/
+    most MaxArraySize elements, mappings without float keys and with distinct integer / string / object keys) whose
+    floats satisfy the float contract and that `save_variable` accepted (`hd`: svalue_save_size did not raise "nested
+    too deep" — restore refuses deeper text since the nesting fix, so the limit is part of the statement now),
+    restoring the text that `save` wrote yields a value of the same shape: equal integers and strings, floats with the
+    same saved text, object references as 0. -/
 theorem roundtrip {α : Type} (F : FloatOps α) (mb : MbLen) (v : Value α) (hs : savable v = true)
-    (hf : FloatsOK F v) :
-    ∃ v', restoreVariable F mb (save F v) = RvOut.value v' ∧ Equiv F (erase v) v' :=
-  roundtrip_ind F mb v (savable_bridge F v hs hf)
+    (hf : FloatsOK F v) (hd : saveVariable F v ≠ SaveOut.tooDeep) :
+    ∃ v', restoreVariable F mb (save F v) = RvOut.value v' ∧ Equiv F (erase v) v' := by
+  refine roundtrip_ind F mb v (savable_bridge F v hs hf) ?_
+  unfold saveVariable at hd
+  cases h : saveSize F 0 v with
+  | none => simp [h] at hd
+  | some n => rfl
 
 /-! ## non-vacuity -/
 
@@ -436,8 +452,96 @@ theorem deepExample_floatsOK : FloatsOK rtF deepExample := by
   simp only [deepExample, FloatsOK, FloatsOKVals, FloatsOKPairs, and_true, true_and]
   exact rtF_floatOK
 
+/-- `save_variable` accepts it (nesting 6 of at most MAX_SAVE_SVALUE_DEPTH) -/
+theorem deepExample_withinDepth : saveVariable rtF deepExample ≠ SaveOut.tooDeep := by
+  have h : (saveSize rtF 0 deepExample).isSome = true := by
+    simp [deepExample, saveSize, sizeElems, sizePairs, maxDepth, NV.Gen.C16.maxSaveSvalueDepth]
+  unfold saveVariable
+  cases hs : saveSize rtF 0 deepExample with
+  | none => simp [hs] at h
+  | some n => simp only []; split <;> simp
+
 example (mb : MbLen) : ∃ v', restoreVariable rtF mb (save rtF deepExample) = RvOut.value v' ∧
     Equiv rtF (erase deepExample) v' :=
-  roundtrip rtF mb deepExample deepExample_savable deepExample_floatsOK
+  roundtrip rtF mb deepExample deepExample_savable deepExample_floatsOK deepExample_withinDepth
+
+/-! ## float keys
+
+`roundtrip` (domain `savable`) excludes float keys; the induction itself (`roundtrip_ind`) only needs `KeysDistinct`: the
+keys of a mapping stay different keys.  With `keysDistinct_of_tagsF` that holds for float keys whose saved texts are
+pairwise different (finding K5 is the case where they are NOT: the entries collapse), given the `==` contract
+`EqPrintOK` on the floats that print like those keys. -/
+
+/-- two "floats" with different texts: `true` prints "1.5", `false` prints "2.5"; `==` is equality -/
+def rtF2 : FloatOps Bool :=
+  ⟨fun b => if b then [49, 46, 53] else [50, 46, 53], fun n => n == 1, fun _ b => b, fun a _ => a, fun a _ => a,
+   fun a => a, fun _ => true, fun a b => a == b, fun _ => false, fun _ => false, fun _ => false⟩
+
+theorem rtF2_floatOK (b : Bool) : FloatOK rtF2 b := by
+  have hsave : saveReal rtF2 b = [if b then 49 else 50, 46, 53] := by cases b <;> rfl
+  refine ⟨⟨if b then 49 else 50, [46, 53], hsave, by cases b <;> rfl⟩, ?_, ?_⟩
+  · intro x hx
+    rw [hsave] at hx
+    simp at hx
+    rcases hx with rfl | rfl | rfl
+    · cases b <;> decide
+    · decide
+    · decide
+  · intro c s he tail ht
+    rw [hsave] at he
+    injection he with h1 h2
+    subst h1; subst h2
+    refine ⟨b, ?_, rfl⟩
+    have hspan : ([53] ++ tail).span isDigit = ([53], tail) :=
+      span_digits [53] tail (by intro b hb; simp at hb; subst hb; rfl) (TailOK.span ht)
+    have hspan0 : ([46, 53] ++ tail).span isDigit = ([], [46, 53] ++ tail) :=
+      span_digits [] _ (by simp) (Or.inr ⟨46, 53 :: tail, rfl, rfl⟩)
+    unfold parseNumeric
+    simp only [List.cons_append, List.nil_append] at hspan hspan0 ⊢
+    have h53 : isDigit 53 = true := rfl
+    cases b
+    · simp only [show ¬ ((50 : Nat) = 45) by decide, Bool.false_eq_true, ↓reduceIte, hspan0, hspan, h53]
+      rcases ht with rfl | ⟨d, r, rfl, hd | hd⟩
+      · rfl
+      · subst hd; rfl
+      · subst hd; rfl
+    · simp only [show ¬ ((49 : Nat) = 45) by decide, ↓reduceIte, hspan0, hspan, h53]
+      rcases ht with rfl | ⟨d, r, rfl, hd | hd⟩
+      · rfl
+      · subst hd; rfl
+      · subst hd; rfl
+
+/-- a mapping with two float keys (texts "1.5", "2.5"), an integer key and a string key -/
+def floatKeyExample : Value Bool :=
+  .map (.cons (.real true) (.int 1) (.cons (.real false) (.str [97]) (.cons (.int 7) (.real true)
+    (.cons (.str [107]) (.arr (.cons (.real false) .nil)) .nil))))
+
+theorem floatKeyExample_savable : Savable rtF2 floatKeyExample := by
+  refine Savable.map _ ?_ ?_
+  · refine SavablePairs.cons _ _ _ (Savable.real _ (rtF2_floatOK _)) (Savable.int _ (by decide) (by decide)) ?_
+    refine SavablePairs.cons _ _ _ (Savable.real _ (rtF2_floatOK _)) (Savable.str _ (by intro b hb; simp at hb; omega)) ?_
+    refine SavablePairs.cons _ _ _ (Savable.int _ (by decide) (by decide)) (Savable.real _ (rtF2_floatOK _)) ?_
+    refine SavablePairs.cons _ _ _ (Savable.str _ (by intro b hb; simp at hb; omega)) ?_ SavablePairs.nil
+    exact Savable.arr _ (SavableVals.cons _ _ (Savable.real _ (rtF2_floatOK _)) SavableVals.nil) (by decide)
+  · apply keysDistinct_of_tagsF
+    · decide
+    · intro a b _ _ a' b' ha hb heq
+      have : a' = b' := by simpa [rtF2] using heq
+      subst this
+      rw [← ha, ← hb]
+
+theorem floatKeyExample_withinDepth : saveVariable rtF2 floatKeyExample ≠ SaveOut.tooDeep := by
+  have h : (saveSize rtF2 0 floatKeyExample).isSome = true := by
+    simp [floatKeyExample, saveSize, sizeElems, sizePairs, maxDepth, NV.Gen.C16.maxSaveSvalueDepth]
+  unfold saveVariable
+  cases hs : saveSize rtF2 0 floatKeyExample with
+  | none => simp [hs] at h
+  | some n => simp only []; split <;> simp
+
+/-- the round trip of a mapping WITH float keys -/
+example (mb : MbLen) : ∃ v', restoreVariable rtF2 mb (save rtF2 floatKeyExample) = RvOut.value v' ∧
+    Equiv rtF2 (erase floatKeyExample) v' := by
+  refine roundtrip_ind rtF2 mb floatKeyExample floatKeyExample_savable ?_
+  simp [floatKeyExample, saveSize, sizeElems, sizePairs, maxDepth, NV.Gen.C16.maxSaveSvalueDepth]
 
 end NV.C16
